@@ -34,8 +34,8 @@ PROP = {
         "[m] <- r|imm: load, store, read-modify-write), inc/dec r and [m], setcc r8 (14 codes that do not read PF), movzx/movsx/movsxd from register and from memory, "
         "lea r,[base+index*scale+disp], push r|imm|[m] (incl. push rsp, 16-bit), pop r|[m] (incl. pop rsp); all sub-register kinds (al/ah/ax/eax/rax), both modes, every address size "
         "incl. the 0x67 prefix. Memory/stack forms are proved under the state condition that the accessed bytes do not cross the end of the address space of the operand's address "
-        "size (no_wrap / push_no_wrap / pop_no_wrap; the spec wraps there, Sem faults). In the quick tier: 935 of 2 000 encodings (46.8 %, evidence "
-        "extra.stats['encodings:sim-theorem-and-tie']); 7 more (xor x,x lifted to the constant 0; setp/setnp) have the tie but no theorem. Also proved for all values: "
+        "size (no_wrap / push_no_wrap / pop_no_wrap; the spec wraps there, Sem faults). In the quick tier: 957 of 2 000 encodings (47.9 %, seed 1; 956 with seed 4; evidence "
+        "extra.stats['encodings:sim-theorem-and-tie']); 8 more (xor x,x lifted to the constant 0; setp/setnp) have the tie but no theorem. Also proved for all values: "
         "X86Register::get/set, set_zf/sf/of/cf, cc_condition for all 16 codes, Mode::operand_value address expressions = X86.ea, Sem.mem_load/mem_store = X86 mem_rd/mem_wr at 8/16/32/64 bits",
         "NOT mirrored / no theorem (processor + spec on sampled states only): absolute and rip-relative memory operands (no base, no index) of every form; test/neg/not, xchg/xadd/cmpxchg, "
         "imul/mul/div/idiv, shl/shr/sar/rol/ror/shld/shrd, bt*, bsf/bsr, string instructions, cmovcc/jcc/loop (multi-block graphs), call/ret/jmp/leave, cbw..cqo, flag instructions, SSE",
@@ -51,7 +51,7 @@ PROP = {
                   "with the host processor's result for the same bytes (amd64) and with the Coq ISA specification X86.step (both modes); a sort error at lift or run time is a failure. "
                   "Unbounded Coq theorems (all machine states, all embedding IL states) against X86.step, transferred to the real lifter's dumped IL by a syntactic tie checked each run, for "
                   "mov/add/sub/cmp/and/or/xor/adc/sbb in every operand position (register, immediate, memory load/store/read-modify-write), inc/dec, setcc (14 codes), movzx/movsx, lea, push/pop: "
-                  "935 of the 2 000 quick-tier encodings (46.8 %); memory and stack forms under a no-address-wrap condition on the state. The other 53 % (absolute/rip-relative operands, shifts, "
+                  "957 of the 2 000 quick-tier encodings (47.9 %); memory and stack forms under a no-address-wrap condition on the state. The other 52 % (absolute/rip-relative operands, shifts, "
                   "mul/div, bit tests, strings, control flow, xchg/xadd, test/neg/not, SSE) rest on the sampled-state comparison only.",
     "level_note": "Differential against the processor for breadth (sampled states), proof for the helper layer only. Trusted: Coq kernel + vm_compute, the CPU and the native runner, "
                   "the ISA transcription (validated against the CPU each run), the harness encoder/printer, Exec/Sem.v.",
